@@ -376,7 +376,15 @@ func oneFormula(s *system, c formulaCase) {
 	lib.Count(fmt.Sprintf("msglen-%d", c.msgLen))
 	var ct []byte
 	var err error
-	if p := lib.Try("tkn20.PublicKey.Encrypt", []byte(text), func() { ct, err = s.pk.Encrypt(lib.NewRng("c20/enc", c.idx), pol, msg) }); p != nil {
+	if p := lib.Try("tkn20.PublicKey.Encrypt", []byte(text), func() {
+		// the message buffer is overwritten as soon as Encrypt returns: the
+		// ciphertext must not live in it
+		msgIn := lib.Clone(msg)
+		ct, err = s.pk.Encrypt(lib.NewRng("c20/enc", c.idx), pol, msgIn)
+		for i := range msgIn {
+			msgIn[i] ^= 0xA5
+		}
+	}); p != nil {
 		lib.Violation("C20:panic:PublicKey.Encrypt", mon, lib.D("policy", text, "panic", p.Value, "frame", p.TopFrame()))
 		return
 	}
